@@ -118,6 +118,10 @@ class SlopeTransformer(_PanelToPanelTransformer):
         m : an int corresponding to the gradient of the best fit line.
         """
 
+        # statistics.mean returns the mean in the type of the data: for a series
+        # stored as (numpy) integers it would be truncated
+        Y = [float(y) for y in Y]
+
         # Create a list that contains 1,2,3,4,...,len(Y) for the x coordinates.
         X = [(i + 1) for i in range(len(Y))]
 
